@@ -427,7 +427,10 @@ func (vc *VC) specSel(env *SpecEnv, e *SSel) Val {
 		}
 	}
 	if f, ok := obj.(*types.Var); ok && f.IsField() {
-		return Val{vc.selectPath(env.st, x.T, x.GoT, path), f.Type()}
+		vc.inSpec++
+		v := vc.selectPath(env.st, x.T, x.GoT, path)
+		vc.inSpec--
+		return Val{v, f.Type()}
 	}
 	vc.fail("spec: no field %s in %s", e.Name, x.GoT)
 	return Val{IntLit(0), nil}
@@ -591,6 +594,29 @@ func (vc *VC) specCall(env *SpecEnv, e *SCall) Val {
 				sub.st = env.pre
 			}
 			return vc.specEval(&sub, e.Args[0])
+		case "fresh":
+			// fresh(x): the object x refers to (or the backing array of slice x) was allocated by
+			// this activation: no caller, callee-retained structure or other thread can reach it
+			// unless this activation hands it out
+			x := vc.specEval(env, e.Args[0])
+			if x.T.Sort == SSlc {
+				return Val{app(SBool, ">", sbase(x.T), Term{"alloc$base", SInt}), tb}
+			}
+			return Val{app(SBool, ">", x.T, Term{"alloc$base", SInt}), tb}
+		case "locked":
+			// locked("mu"): the monitor mutex field named mu is held by this activation at this point
+			if lit, ok := e.Args[0].(*SLit); ok {
+				n := "gl$$held$" + lit.Val
+				if _, ok := vc.universe[n]; !ok {
+					vc.universe[n] = SBool
+				}
+				if t, ok := env.st.heap[n]; ok {
+					return Val{t, tb}
+				}
+				return Val{TFalse, tb}
+			}
+			vc.fail("spec: locked(\"mutexField\") needs a string literal")
+			return Val{TFalse, tb}
 		case "atlock":
 			sub := *env
 			if vc.lastLock != nil {
